@@ -251,6 +251,20 @@ def compare_file(path, m, what, sig):
         single = lib(lambda: da.read_nc(path, name), what=what + " read_nc(file, %r)" % name, sig=sig)
         compare_var(single, exp, what + " single read of " + name, sig, m.fmt)
     core.check_shared_axes(r, what, sig)
+    # partial reads: a list / tuple of names gives a Dataset of exactly those variables over exactly their dimensions
+    names = list(m.vars.keys())
+    for sub in ([names[-1:], tuple(names[:1]), names[::2]] if names else []):
+        sub = list(sub)
+        part = lib(lambda: da.read_nc(path, sub if len(sub) != 1 or sub == names[-1:] else tuple(sub)), what=what + " read_nc(file, %r)" % (sub,), sig=sig)
+        check(isinstance(part, da.Dataset) and list(part.keys()) == sub, "partial-read-keys", {"what": what, "names": sub, "got": list(part.keys()) if hasattr(part, "keys") else repr(type(part))}, sig)
+        used = []
+        for n_ in sub:
+            compare_var(part[n_], m.vars[n_], what + " partial read %r var %s" % (sub, n_), sig, m.fmt)
+            for d_ in m.vars[n_][0]:
+                if d_ not in used:
+                    used.append(d_)
+        check(sorted(part.dims) == sorted(used), "partial-read-dims", {"what": what, "names": sub, "got": list(part.dims), "expected_set": used}, sig)
+        core.check_shared_axes(part, what + " partial read %r" % (sub,), sig)
 
 
 # ----------------------------------------------------------------------------------------------
@@ -271,6 +285,15 @@ def run_json(case):
     check(isinstance(s, str), "to_json-not-a-string", {"what": what}, sig)
     b = lib(lambda: da.DimArray.from_json(s), what=what, sig=sig)
     core.expect_equal_arrays(b, a, what, sig=sig)
+    # the dictionary-level entry points: to_jsondict() / from_jsondict(); the dictionary handed in is the caller's and can be used again
+    import json as _json
+    jd = _json.loads(s)
+    jd_before = _json.dumps(jd, sort_keys=True)
+    b2 = lib(lambda: da.DimArray.from_jsondict(jd), what=what + " [from_jsondict(json.loads(to_json()))]", sig=sig)
+    core.expect_equal_arrays(b2, a, what + " [from_jsondict]", sig=sig)
+    check(_json.dumps(jd, sort_keys=True) == jd_before, "jsondict-argument-modified", {"what": what, "now": sorted(jd.keys())}, sig)
+    b3 = lib(lambda: da.DimArray.from_jsondict(jd), what=what + " [from_jsondict, same dictionary again]", sig=sig)
+    core.expect_equal_arrays(b3, a, what + " [from_jsondict, same dictionary again]", sig=sig)
     for d_, la, lb in zip(spec["dims"], a.labels, b.labels):
         # labels are restored as what they were: float labels stay floats (0.0 is not 0), strings stay strings
         ka, kb = ("s" if la.dtype.kind in "OUS" else la.dtype.kind), ("s" if lb.dtype.kind in "OUS" else lb.dtype.kind)
